@@ -329,6 +329,9 @@ def verify_run(model, run, mode, api, file_name, features, result=None):
 
     if run.stream_closed_behind_callers_back():
         raise core.Violation("caller-stream-closed-by-cutplace", features, "the stream passed in as data source is closed after the run")
+    changed_row = run.rows_changed()
+    if changed_row is not None:
+        raise core.Violation("returned-row-changed-later", features, "item %d was %r when returned, is %r after the run" % changed_row)
     changed = run.held_changed()
     if changed is not None:
         # an error handed out earlier must keep its own location while reading goes on
